@@ -815,6 +815,8 @@ pub fn generate(rng: &mut Rng, tier: Tier, emit: &mut dyn FnMut(String)) {
     for _ in 0..30_000 * scale {
         emit(random_gate(rng, 6, &gate_pools));
     }
+    // where the flag the gate reads comes from: the public setters of Statement / PreparedStatement / Batch
+    crate::c13_cfg::generate(rng, tier, emit);
 }
 
 // ------------------------------------------------------------------------------------------------
@@ -1590,6 +1592,7 @@ pub fn run(case: &str, ctx: &mut Ctx) -> String {
     let w: Vec<&str> = case.split_whitespace().collect();
     match w.first().copied() {
         Some("class") => run_class(&w, ctx),
+        Some("cfg") => crate::c13_cfg::run(&w, ctx),
         Some("lbplan") => run_lbplan(&w, ctx),
         Some("lbscript") => run_lbscript(&w, ctx),
         // the pager's plan, end to end, with the targets of every page printed for the model (see e2e/spec.rs)
